@@ -316,7 +316,7 @@ func checkEmissions(p *Prog, r *Report, f *ssa.Function, br map[string]*genBranc
 	rm := p.Rels(f)
 	for _, n := range []string{"coq", "go"} {
 		g := br[n]
-		mKey := exprKey(g.find)
+		mKey := sk(g.find)
 		var emit []*ssa.Call
 		for _, c := range g.fprintf {
 			// test emissions are those dominated by the FindStringSubmatch call
